@@ -25,8 +25,11 @@ def loop_plan(prop):
                 ctx.mc_replay("nest5", "MC_Loop.tla", "MC_Loop_hist.cfg", "fam_nest.json", props, variants=1, consts={"MaxLen": 5})
                 ctx.mc_replay("nestw7", "MC_Loop.tla", "MC_Loop_hist.cfg", "fam_nestw.json", props, variants=1, consts={"MaxLen": 7})
             ctx.mc_replay("nestx6", "MC_Loop.tla", "MC_Loop_hist.cfg", "fam_nestx.json", props, variants=1, consts={"MaxLen": 6})
+            ctx.mc_replay("nesty6", "MC_Loop.tla", "MC_Loop_hist.cfg", "fam_nesty.json", props, variants=1, consts={"MaxLen": 6})
             ctx.trace("sessions", props, sessions=40, calls=25, check_attrs=True, kinds="0,1,2,3,4,5,8",
                       extra=["-nounsafe=false"] if prop in ("C08", "C09") else None)
+            if prop in ("C08", "C09"):
+                ctx.trace("deep", props, sessions=2, calls=3, check_attrs=False, kinds="10")   # chains 130-330 elements deep; whole-history invariants off (quadratic), the oracle judges
         else:
             ctx.mc_replay("hist3", "MC_Loop.tla", "MC_Loop_hist.cfg", "fam_loop.json", props, variants=3, consts={"MaxLen": 3}, timeout=3000)
             ctx.mc_replay("cover", "MC_Loop.tla", "MC_Loop_cover.cfg", "fam_loop.json", props, variants=3, timeout=3000)
@@ -34,8 +37,11 @@ def loop_plan(prop):
                 ctx.mc_replay("nest7", "MC_Loop.tla", "MC_Loop_hist.cfg", "fam_nest.json", props, variants=1, consts={"MaxLen": 7}, timeout=3000)
                 ctx.mc_replay("nestw8", "MC_Loop.tla", "MC_Loop_hist.cfg", "fam_nestw.json", props, variants=1, consts={"MaxLen": 8}, timeout=3000)
             ctx.mc_replay("nestx7", "MC_Loop.tla", "MC_Loop_hist.cfg", "fam_nestx.json", props, variants=1, consts={"MaxLen": 7}, timeout=3000)
+            ctx.mc_replay("nesty8", "MC_Loop.tla", "MC_Loop_hist.cfg", "fam_nesty.json", props, variants=1, consts={"MaxLen": 8}, timeout=3000)
             ctx.trace("sessions", props, sessions=400, calls=40, timeout=3000, check_attrs=True, kinds="0,1,2,3,4,5,8",
                       extra=["-nounsafe=false"] if prop in ("C08", "C09") else None)
+            if prop in ("C08", "C09"):
+                ctx.trace("deep", props, sessions=20, calls=4, check_attrs=False, kinds="10", timeout=3000)
             if prop in ("C01", "C05"):
                 ctx.apalache_inductive()
         return dict(rule=LOOP_RULE, exhaustive=False, assumptions=ASSUME_COMMON)
@@ -68,7 +74,7 @@ def attr_plan(prop, fams):
 
 
 PLANS["C02"] = attr_plan("C02", [("allow", 2, 3), ("forced", 2, 3), ("link", 2, 3)])
-PLANS["C03"] = attr_plan("C03", [("url", 1, 2)])
+PLANS["C03"] = attr_plan("C03", [("url", 1, 2), ("urldup", 2, 3)])
 PLANS["C10"] = attr_plan("C10", [("style", 2, 3)])
 PLANS["C11"] = attr_plan("C11", [("link", 3, 4)])
 PLANS["C12"] = attr_plan("C12", [("forced", 3, 4), ("url", 1, 2)])
